@@ -770,11 +770,14 @@ wavlike_ima_seek (SF_PRIVATE *psf, int mode, sf_count_t offset)
 		} ;
 
 	if (offset == 0)
-	{	psf_fseek (psf, psf->dataoffset, SEEK_SET) ;
-		pima->blockcount = 0 ;
-		if (!pima->decode_block)
+	{	if (pima->decode_block == NULL)
+		{	/* Write mode : no decoder, same answer as for any other offset. */
+			psf->error = SFE_BAD_SEEK ;
 			return PSF_SEEK_ERROR ;
+			} ;
 
+		psf_fseek (psf, psf->dataoffset, SEEK_SET) ;
+		pima->blockcount = 0 ;
 		pima->decode_block (psf, pima) ;
 		pima->samplecount = 0 ;
 		return 0 ;
